@@ -48,7 +48,7 @@ def functions():
 
 def configs(tier):
     out = []
-    gl = ['P3', 'S3', 'paw', 'K3', 'irr5'] + (['P4', 'C4', 'K4', 'T5'] if tier == 'thorough' else [])
+    gl = ['P3', 'S3', 'paw', 'K3', 'irr5', 'paw+K1'] + (['P4', 'C4', 'K4', 'T5'] if tier == 'thorough' else [])
     for g in gl:
         n = graphs.ALL[g][0]
         ics = [('rho', None, None), ('sets', [0], []), ('sets', [1], [n - 1])]
